@@ -83,7 +83,7 @@ pub fn generate(prop: &str, rng: &mut Rng, n: usize) -> Vec<Case> {
         "C15" => gen_pwops(rng, n, &mut out, &["c15_ops"]),
         "C11" => gen_pwops(rng, n, &mut out, &["c11_integral"]),
         "C17" => gen_c17(rng, n, &mut out),
-        "C16" => gen_sel(rng, n, &mut out, &["c16_hist_nan", "c16_v_nan", "c02_direct"]),
+        "C16" => { gen_sel(rng, n / 2, &mut out, &["c16_hist_nan", "c16_v_nan", "c02_direct"]); let m = out.len() + n / 2; gen_c17(rng, m, &mut out); }
         _ => {}
     }
     out
@@ -782,7 +782,7 @@ fn gen_c04(rng: &mut Rng, n: usize, out: &mut Vec<Case>) {
     ];
     for sh in shapes.iter() { let v: Vec<f64> = sh.iter().flat_map(|(x, y)| vec![*x, *y]).collect(); out.push(case("c04_spline", &v)); }
     while out.len() < n {
-        let k = 3 + rng.below(6) as usize;
+        let k = if rng.below(5) == 0 { 3 + rng.below(38) as usize } else { 3 + rng.below(6) as usize };
         let mut x = (rng.below(21) as f64) - 10.0;
         let mut v = Vec::new();
         let mut y = rng.float();
@@ -842,7 +842,7 @@ fn gen_c06(rng: &mut Rng, n: usize, out: &mut Vec<Case>) {
     ];
     for sh in shapes.iter() { let v: Vec<f64> = sh.iter().flat_map(|(x, y)| vec![*x, *y]).collect(); out.push(case("c06_linear", &v)); }
     while out.len() < n {
-        let k = 2 + rng.below(5) as usize;
+        let k = if rng.below(5) == 0 { 2 + rng.below(39) as usize } else { 2 + rng.below(5) as usize };
         let mut v = Vec::new();
         let mut x = rng.float();
         for _ in 0..k {
@@ -894,7 +894,13 @@ fn run_sel(kind: &str, p: &[f64]) -> Option<String> {
             if got.len() != qs.len() { return Some(format!("evaluate_v yielded {} values for {} arguments", got.len(), qs.len())); }
             if kind == "c16_v_nan" { return None; }
             let mut runmax = f64::NEG_INFINITY;
+            let mut nondecr = true;
             for (k, &x) in qs.iter().enumerate() {
+                if k > 0 && x < qs[k - 1] { nondecr = false; }
+                if nondecr {
+                    let d = pw.evaluate(x);
+                    if got[k].to_bits() != d.to_bits() { return Some(format!("evaluate_v argument #{} x={:e} gave {:e} but evaluating it individually gives {:e} (non-decreasing arguments); ends={:?} args={:?}", k, x, got[k], d, ends, &qs[..=k])); }
+                }
                 if x > runmax { runmax = x; }
                 let i = sel_oracle(ends, runmax);
                 let w = Poly1([i as f64 * 1024.0, 1.0]).evaluate(x);
@@ -1078,7 +1084,8 @@ fn gen_pwops(rng: &mut Rng, n: usize, out: &mut Vec<Case>, kinds: &[&str]) {
 // oracle: equal list lengths && f64::{abs_diff_eq, relative_eq} (approx's own) on every corresponding pair.
 fn run_c17(p: &[f64]) -> Option<String> {
     use approx::{AbsDiffEq, RelativeEq};
-    let ty = p[0] as usize;
+    let same_object = p[0] >= 100.0;
+    let ty = if same_object { p[0] as usize - 100 } else { p[0] as usize };
     let (eps, mr) = (p[1], p[2]);
     let na = p[3] as usize;
     let a = &p[4..4 + na];
@@ -1088,8 +1095,9 @@ fn run_c17(p: &[f64]) -> Option<String> {
     let o_rel = a.len() == b.len() && a.iter().zip(b.iter()).all(|(x, y)| x.relative_eq(y, eps, mr));
     macro_rules! cmp { ($name:expr, $x:expr, $y:expr) => {{
         let (x, y) = ($x, $y);
-        let g_abs = x.abs_diff_eq(&y, eps);
-        let g_rel = x.relative_eq(&y, eps, mr);
+        // same_object: the value is compared with ITSELF (the very same object), b is a copy of a
+        let g_abs = if same_object { x.abs_diff_eq(&x, eps) } else { x.abs_diff_eq(&y, eps) };
+        let g_rel = if same_object { x.relative_eq(&x, eps, mr) } else { x.relative_eq(&y, eps, mr) };
         if g_abs != o_abs { return Some(format!("{}: abs_diff_eq(eps={:e}) is {} but the conjunction over the numbers {:?} / {:?} is {}", $name, eps, g_abs, a, b, o_abs)); }
         if g_rel != o_rel { return Some(format!("{}: relative_eq(eps={:e}, max_relative={:e}) is {} but the conjunction over the numbers {:?} / {:?} is {}", $name, eps, mr, g_rel, a, b, o_rel)); }
         None
@@ -1136,6 +1144,18 @@ fn gen_c17(rng: &mut Rng, n: usize, out: &mut Vec<Case>) {
             if b.is_empty() { break; }
             let i = rng.below(b.len() as u64) as usize;
             b[i] = match rng.below(8) { 6 | 7 => b[i] + 0.75 * eps, 0 => b[i] + 0.125, 1 => b[i] + 2.0, 2 => b[i] * 1.25, 3 => f64::from_bits(b[i].to_bits().wrapping_add(1)), 4 => -b[i], _ => b[i] + 1e-17 };
+        }
+        if rng.below(10) == 0 && na > 0 {
+            // a value compared with itself, with an infinity or NaN among its numbers (the f64-level relation is false for those)
+            let mut a2 = a.clone();
+            let i = rng.below(na as u64) as usize;
+            a2[i] = [f64::INFINITY, f64::NEG_INFINITY, f64::NAN][rng.below(3) as usize];
+            let mut v = vec![100.0 + ty as f64, eps, mr, na as f64];
+            v.extend_from_slice(&a2);
+            v.push(na as f64);
+            v.extend_from_slice(&a2);
+            out.push(case("c17_approx", &v));
+            continue;
         }
         let mut v = vec![ty as f64, eps, mr, na as f64];
         v.extend_from_slice(&a);
